@@ -355,6 +355,16 @@ def doc_calls(rng, lines, version, vlevel, tmpdir):
                 pass
             except Exception as e:
                 raise type(e)('%s: %s' % (n, e))
+        # the header as one line
+        for n, call in zero_arg_names(G0.header, {'connect', 'disconnect', 'register_extension'}):
+            G = add_all()
+            try:
+                getattr(G.header, n)() if call else getattr(G.header, n)
+                str(G)
+            except g.Error:
+                pass
+            except Exception as e:
+                raise type(e)('header.%s: %s' % (n, e))
         k = 0
         for idx, l0 in enumerate(list(G0.lines)[:10]):
             for n, call in zero_arg_names(l0, {'connect', 'register_extension'} | F75_LINE_OPS):
@@ -386,6 +396,8 @@ SHAPES = [
     ('gfa2', ['S\tx\t10\t*', 'S\ty\t10\t*', 'E\te\tx+\ty+\t7\t10$\t0\t3\t*', 'O\ta\tb+ x+', 'O\tb\ta+ x+']),
     ('gfa2', ['S\tx\t10\t*', 'E\t*\tx+\tx+\t7\t10$\t0\t3\t*', 'E\t*\tx+\tx+\t7\t10$\t0\t3\t*', 'E\te\tx+\tx-\t7\t10$\t7\t10$\t*',
               'O\to\tx+ x+', 'U\tu\tx x e', 'F\tx\tx+\t0\t3\t0\t3\t*', 'G\tg\tx+\tx-\t3\t*']),
+    # header tags given on several lines (stored as an array of values)
+    ('gfa1', ['H\tVN:Z:1.0\txx:i:1', 'H\txx:i:2\tyy:Z:a', 'H\tyy:Z:b', 'S\tx\t*']),
     # groups of one item (an edge, a segment, another group), a set of one set, an empty-looking path
     ('gfa2', ['S\tx\t10\t*', 'S\ty\t10\t*', 'E\te\tx+\ty+\t7\t10$\t0\t3\t*', 'O\tp\te+', 'O\tq\te-', 'O\tr\tx-', 'O\ts\tp+', 'O\tt\tp-',
               'U\tu\te', 'U\tv\tu', 'U\tw\tp']),
